@@ -429,6 +429,39 @@ def rule_table_argparse(prog, rep, tier):
         else:
             rep.violation(Finding("TABLE-argparse", "ast_utils.param2argparse_param", "escape-without-inverse:%r->%r" % (a_, b_),
                                   "the emitter rewrites the help text with replace(%r, %r) but parse_out_param never applies the inverse: the prose grows/changes on every round trip" % (a_, b_), loc(prog, c)))
+    # percent: argparse %-formats every help string (`help % params`), so a '%' in the prose must be written doubled - and read back single
+    help_kws = [c for nd_ in w_nodes for c in ast.walk(nd_) if isinstance(c, ast.Call) and isinstance(c.func, (ast.Name, ast.Attribute))
+                and getattr(c.func, "id", getattr(c.func, "attr", None)) == "keyword"
+                and any(k.arg == "arg" and isinstance(k.value, ast.Constant) and k.value.value == "help" for k in c.keywords)]
+    for hk in help_kws:
+        v = next((k.value for k in hk.keywords if k.arg == "value"), None)
+        if v is None:
+            continue
+        fn_ = enclosing_fn(hk)
+        closure, todo, seen_names = [], [v], set()
+        while todo:
+            e_ = todo.pop()
+            closure.append(e_)
+            for x in ast.walk(e_):
+                if isinstance(x, ast.Name) and x.id not in seen_names and fn_ is not None:
+                    seen_names.add(x.id)
+                    todo += [st.value for st in ast.walk(fn_.node) if isinstance(st, ast.Assign) and any(isinstance(t, ast.Name) and t.id == x.id for t in st.targets)]
+                if isinstance(x, ast.Call) and isinstance(x.func, (ast.Name, ast.Attribute)):
+                    for t in prog.resolve_expr_fn(x.func, x):
+                        if isinstance(t, FunctionInfo) and t.node not in closure and t.module.name == "ast_utils":
+                            todo.append(t.node)
+        doubled = any(isinstance(c, ast.Call) and isinstance(c.func, ast.Attribute) and c.func.attr == "replace" and len(c.args) >= 2
+                      and all(isinstance(a_, ast.Constant) for a_ in c.args[:2]) and (c.args[0].value, c.args[1].value) == ("%", "%%")
+                      for e_ in closure for c in ast.walk(e_))
+        if not doubled:
+            rep.violation(Finding("TABLE-argparse", "ast_utils.param2argparse_param", "help-percent-unescaped",
+                                  "the help text is handed to add_argument as it is (%s): argparse %%-formats every help string, so prose with a percent sign ('50%% of it') makes "
+                                  "the generated parser raise when it prints its help" % src(v, 60), loc(prog, hk)))
+        elif ("%%", "%") not in r_repl:
+            rep.violation(Finding("TABLE-argparse", "ast_utils.param2argparse_param", "escape-without-inverse:'%'->'%%'",
+                                  "the emitter doubles '%' in the help text but parse_out_param never halves it again: the prose grows on every round trip", loc(prog, hk)))
+        else:
+            rep.holds("TABLE-argparse", "help text: '%' is doubled for argparse and halved again by the parser", loc(prog, hk), "")
     # action / loads constants
     acts_w = set()
     for fi in prog.reachable([w]):
